@@ -465,3 +465,248 @@ Qed.
 
 Theorem InvO_reach : forall c s, reach c s -> InvO s.
 Proof. intros c. induction 1; [apply InvO_init|eapply InvO_step; eauto using InvR_reach]. Qed.
+
+(* ================= the theorems of the property ================= *)
+
+(* ---- restored ---- *)
+Lemma nil_of_no_in : forall (l : list nat), (forall j, ~ In j l) -> l = [].
+Proof. intros [|h t] H; [reflexivity|]. exfalso. apply (H h). left; reflexivity. Qed.
+
+Theorem restored_counts : forall c s, reach c s ->
+  queueLen s = cnt inside (calls s) /\ invokeNum s = cnt invoked (calls s) /\
+  (forall i, In i (resp s) <-> inside_at (calls s) i) /\ NoDup (resp s).
+Proof. intros c s H. destruct (InvA_reach c s H). auto. Qed.
+
+Theorem restored_quiescent : forall c s, reach c s ->
+  (forall i k, nth_error (calls s) i = Some k -> k_pc k = Init \/ k_pc k = Returned) ->
+  queueLen s = 0%Z /\ invokeNum s = 0%Z /\ resp s = [].
+Proof.
+  intros c s H Hq. destruct (InvA_reach c s H) as [Hql Hin Hr Hd]. repeat split.
+  - rewrite Hql. apply cnt_all_false. intros i k Hk. unfold inside. destruct (Hq _ _ Hk) as [-> | ->]; reflexivity.
+  - rewrite Hin. apply cnt_all_false. intros i k Hk. unfold invoked. destruct (Hq _ _ Hk) as [-> | ->]; reflexivity.
+  - apply nil_of_no_in. intros j Hj. apply Hr in Hj. destruct Hj as [k [Hk Hi]].
+    unfold inside in Hi. destruct (Hq _ _ Hk) as [Hp|Hp]; rewrite Hp in Hi; discriminate.
+Qed.
+
+(* no call inside doInvoke: queueLen and the pending-reply table are empty, whatever the other calls do outside *)
+Theorem restored_no_call_inside : forall c s, reach c s ->
+  (forall i k, nth_error (calls s) i = Some k -> inside k = false) -> queueLen s = 0%Z /\ resp s = [].
+Proof.
+  intros c s H Hq. destruct (InvA_reach c s H) as [Hql Hin Hr Hd]. split.
+  - rewrite Hql. apply cnt_all_false. exact Hq.
+  - apply nil_of_no_in. intros j Hj. apply Hr in Hj. destruct Hj as [k [Hk Hi]].
+    rewrite (Hq _ _ Hk) in Hi. discriminate.
+Qed.
+
+Lemma cnt_ext : forall f l1 l2, length l1 = length l2 ->
+  (forall j k1 k2, nth_error l1 j = Some k1 -> nth_error l2 j = Some k2 -> f k1 = f k2) -> cnt f l1 = cnt f l2.
+Proof.
+  induction l1 as [|h1 t1 IH]; intros [|h2 t2] Hl He; cbn in *; try discriminate; [reflexivity|].
+  rewrite (He O h1 h2 eq_refl eq_refl). rewrite (IH t2); [reflexivity|lia|]. intros j k1 k2 H1 H2. apply (He (S j)); auto.
+Qed.
+
+(* per call: the three values after the call has returned equal the values before it entered, given the other calls
+   stand where they stood *)
+Theorem restored_per_call : forall c s1 s2 i k1 k2, reach c s1 -> reach c s2 ->
+  length (calls s1) = length (calls s2) ->
+  (forall j a b, j <> i -> nth_error (calls s1) j = Some a -> nth_error (calls s2) j = Some b -> k_pc a = k_pc b) ->
+  nth_error (calls s1) i = Some k1 -> k_pc k1 = Init -> nth_error (calls s2) i = Some k2 -> k_pc k2 = Returned ->
+  queueLen s1 = queueLen s2 /\ invokeNum s1 = invokeNum s2 /\ (forall j, In j (resp s1) <-> In j (resp s2)).
+Proof.
+  intros c s1 s2 i k1 k2 H1 H2 Hl Hsame Hk1 Hp1 Hk2 Hp2.
+  destruct (InvA_reach c s1 H1) as [Hq1 Hn1 Hr1 _]. destruct (InvA_reach c s2 H2) as [Hq2 Hn2 Hr2 _].
+  assert (Hpc : forall j a b, nth_error (calls s1) j = Some a -> nth_error (calls s2) j = Some b -> inside a = inside b /\ invoked a = invoked b).
+  { intros j a b Ha Hb. destruct (Nat.eq_dec j i) as [->|Hne].
+    - rewrite Hk1 in Ha. rewrite Hk2 in Hb. inversion Ha; inversion Hb; subst. unfold inside, invoked. rewrite Hp1, Hp2. auto.
+    - unfold inside, invoked. rewrite (Hsame _ _ _ Hne Ha Hb). auto. }
+  repeat split.
+  - rewrite Hq1, Hq2. apply cnt_ext; [exact Hl|]. intros j a b Ha Hb. apply (Hpc j a b Ha Hb).
+  - rewrite Hn1, Hn2. apply cnt_ext; [exact Hl|]. intros j a b Ha Hb. apply (Hpc j a b Ha Hb).
+  - rewrite Hr1, Hr2. intros [a [Ha Hi]].
+    assert (Hlt : (j < length (calls s2))%nat) by (rewrite <- Hl; apply nth_error_Some; congruence).
+    apply nth_error_Some in Hlt. destruct (nth_error (calls s2) j) as [b|] eqn:Hb; [|congruence].
+    unfold inside_at. rewrite Hb. exists b. split; [reflexivity|]. destruct (Hpc j a b Ha Hb) as [E _]. congruence.
+  - rewrite Hr1, Hr2. intros [b [Hb Hi]].
+    assert (Hlt : (j < length (calls s1))%nat) by (rewrite Hl; apply nth_error_Some; congruence).
+    apply nth_error_Some in Hlt. destruct (nth_error (calls s1) j) as [a|] eqn:Ha; [|congruence].
+    unfold inside_at. rewrite Ha. exists a. split; [reflexivity|]. destruct (Hpc j a b Ha Hb) as [E _]. congruence.
+Qed.
+
+(* ---- outcome ---- *)
+Theorem outcome_classes : forall c s i k, reach c s -> nth_error (calls s) i = Some k -> k_pc k = Returned ->
+  exists o, k_out k = Some o /\
+    match o with
+    | Reply p => In (id_of i, p) (sent s)                 (* a packet the peer sent with this call's id *)
+    | Timeout => k_dl k <= k_ret k                         (* never before the deadline *)
+    | Error => ~ In i (sendq s) /\ ~ In i (wire s)         (* the request never left *)
+    end.
+Proof.
+  intros c s i k H Hk Hp. destruct (InvO_reach c s H) as [HO _]. specialize (HO _ _ Hk). unfold out_ok in HO. rewrite Hp in HO.
+  destruct HO as [[[o Ho] Ht] [Hr [_ He]]]. exists o. split; [exact Ho|]. destruct o; [apply Hr; exact Ho|apply Ht; exact Ho|apply He; exact Ho].
+Qed.
+
+(* ---- returns ---- *)
+Theorem returns_partial : forall c s i k, 0 < writeT c -> reach c s -> nth_error (calls s) i = Some k -> k_pc k = Returned ->
+  k_ret k <= B c k.
+Proof. intros c s i k Hw H Hk Hp. pose proof (InvT_reach c s Hw H _ _ Hk) as Ht. cbv beta in Ht. unfold time_ok in Ht. rewrite Hp in Ht. tauto. Qed.
+
+Theorem returns_uncontended : forall c s i k, 0 < writeT c -> reach c s -> nth_error (calls s) i = Some k -> k_pc k = Returned ->
+  k_lockt k = k_start k -> k_e k = false -> k_ret k <= k_dl k + dialT c.
+Proof.
+  intros c s i k Hw H Hk Hp Hl He. pose proof (returns_partial c s i k Hw H Hk Hp) as Hb.
+  pose proof (InvT_reach c s Hw H _ _ Hk) as Ht. cbv beta in Ht. unfold time_ok in Ht. unfold B, dl_d, wr_e in Hb. rewrite He in Hb.
+  destruct (k_d k); lia.
+Qed.
+
+Theorem returns_established : forall c s i k, 0 < writeT c -> reach c s -> nth_error (calls s) i = Some k -> k_pc k = Returned ->
+  k_lockt k = k_start k -> k_d k = false -> k_e k = false -> k_ret k <= k_dl k.
+Proof.
+  intros c s i k Hw H Hk Hp Hl Hd He. pose proof (returns_partial c s i k Hw H Hk Hp) as Hb.
+  pose proof (InvT_reach c s Hw H _ _ Hk) as Ht. cbv beta in Ht. unfold time_ok in Ht. unfold B, dl_d, wr_e in Hb. rewrite He, Hd in Hb. lia.
+Qed.
+
+(* the clock cannot pass the bound of a call that is past connLock and has not returned *)
+Theorem alive_bounded : forall c s i k, 0 < writeT c -> reach c s -> nth_error (calls s) i = Some k ->
+  match k_pc k with
+  | Dialing => now s <= k_lockt k + dialT c
+  | Enq => now s <= k_lockt k + dl_d c k + writeT c
+  | Waiting | Done | Cleaned => now s <= B c k
+  | _ => True end.
+Proof.
+  intros c s i k Hw H Hk. pose proof (InvT_reach c s Hw H _ _ Hk) as Ht. cbv beta in Ht. unfold time_ok in Ht.
+  destruct Ht as [H1 [H2 [H3 Hx]]]. destruct (k_pc k); auto; lia.
+Qed.
+
+(* before connLock: a call waits only while another call holds the lock, and nobody holds it longer than DialTimeout *)
+Theorem lock_wait : forall c s i k, 0 < writeT c -> reach c s -> nth_error (calls s) i = Some k -> k_pc k = Reg ->
+  step c s Tick <> None ->
+  exists j kj, lock s = Some j /\ nth_error (calls s) j = Some kj /\ k_pc kj = Dialing /\ now s < k_lockt kj + dialT c.
+Proof.
+  intros c s i k Hw H Hk Hp Ht. cbn [step] in Ht. destruct (urgent c s) eqn:Hu; [congruence|].
+  unfold urgent in Hu. apply orb_false_elim in Hu. destruct Hu as [Hu _].
+  pose proof (existsb_false_nth _ _ _ _ _ Hu Hk) as Hn. unfold call_urgent in Hn. rewrite Hp in Hn.
+  destruct (lock s) as [j|] eqn:Hl; [|discriminate]. destruct (InvL_reach c s H) as [H1 _]. destruct (H1 _ Hl) as [kj [Hkj Hd]].
+  exists j, kj. repeat split; auto.
+  pose proof (existsb_false_nth _ _ _ _ _ Hu Hkj) as Hnj. unfold call_urgent in Hnj. rewrite Hd in Hnj.
+  pose proof (InvT_reach c s Hw H _ _ Hkj) as Htj. cbv beta in Htj. unfold time_ok in Htj. rewrite Hd in Htj. lia.
+Qed.
+
+(* the full-strength statement of the deadline clause, and its two refutations *)
+Definition returns_statement : Prop :=
+  forall c s i k, 0 < writeT c -> reach c s -> nth_error (calls s) i = Some k -> k_pc k = Returned -> k_ret k <= k_dl k + dialT c.
+
+Fixpoint ticks (n : nat) : list label := match n with O => [] | S m => Tick :: ticks m end.
+
+(* (a) two callers, connection establishment stalls: the second caller waits for connLock while the first one dials *)
+Definition stalled_cfg : cfg := mkcfg 40 60 10 100 100000.
+Definition stalled_trace : list label :=
+  [Start 20; Start 20; LPre 0; LReg 0; LLock 0; LPre 1; LReg 1] ++ ticks 40 ++
+  [LDialTimeout 0; LClean 0; LPost 0; LLock 1] ++ ticks 40 ++ [LDialTimeout 1; LClean 1; LPost 1].
+(* (b) the peer accepts and never reads, send queue of length 1: the second caller waits WriteTimeout for room *)
+Definition fullq_cfg : cfg := mkcfg 10 60 10 1 100000.
+Definition fullq_trace : list label :=
+  [Start 10; Start 10; LPre 0; LReg 0; LLock 0; LDialOk 0; LEnq 0; LPre 1; LReg 1; LLock 1] ++ ticks 10 ++
+  [LCtxFire 0; LClean 0; LPost 0] ++ ticks 50 ++ [LEnqTimeout 1; LClean 1; LPost 1].
+
+Definition late_call (c : cfg) (ls : list label) (i : nat) : bool :=
+  match run c init ls with
+  | Some s => match nth_error (calls s) i with
+              | Some k => match k_pc k with Returned => k_dl k + dialT c <? k_ret k | _ => false end
+              | None => false end
+  | None => false end.
+
+Lemma stalled_dial_late : late_call stalled_cfg stalled_trace 1 = true.
+Proof. vm_compute. reflexivity. Qed.
+Lemma full_queue_late : late_call fullq_cfg fullq_trace 1 = true.
+Proof. vm_compute. reflexivity. Qed.
+
+Lemma late_call_refutes : forall c ls i, 0 < writeT c -> late_call c ls i = true -> ~ returns_statement.
+Proof.
+  intros c ls i Hw Hl Hs. unfold late_call in Hl.
+  destruct (run c init ls) as [s|] eqn:Hr; [|discriminate].
+  destruct (nth_error (calls s) i) as [k|] eqn:Hk; [|discriminate].
+  destruct (k_pc k) eqn:Hp; try discriminate.
+  pose proof (Hs c s i k Hw (run_reach c ls init s (reach_init c) Hr) Hk Hp). lia.
+Qed.
+
+Theorem returns_refuted_stalled_dial : ~ returns_statement.
+Proof. apply (late_call_refutes stalled_cfg stalled_trace 1); [reflexivity|exact stalled_dial_late]. Qed.
+Theorem returns_refuted_full_queue : ~ returns_statement.
+Proof. apply (late_call_refutes fullq_cfg fullq_trace 1); [reflexivity|exact full_queue_late]. Qed.
+
+(* ---- late replies ---- *)
+Definition not_waiting (s : state) (j : nat) : Prop := forall k, nth_error (calls s) j = Some k -> k_pc k <> Waiting.
+Definition same_calls (s s' : state) : Prop :=
+  calls s' = calls s /\ queueLen s' = queueLen s /\ invokeNum s' = invokeNum s /\ resp s' = resp s /\
+  sendq s' = sendq s /\ wire s' = wire s /\ lock s' = lock s /\ conn_open s' = conn_open s /\ now s' = now s.
+
+(* a packet whose id belongs to a call that is not waiting (returned, never issued, id 0) changes no call, no counter and
+   no table entry, whatever its receiver does; and its emission changes nothing either *)
+Theorem late_reply_inert : forall c s r x l s', reach c s -> nth_error (rcvs s) r = Some x ->
+  (forall j, call_of (r_id x) = Some j -> not_waiting s j) ->
+  l = LLookup r \/ l = LDeliver r \/ l = LGiveUp r -> step c s l = Some s' -> same_calls s s'.
+Proof.
+  intros c s r x l s' H Hx Hnw Hl Hs. pose proof (InvR_reach c s H _ _ Hx) as [_ Hrf].
+  destruct Hl as [-> | [-> | ->]]; inv_step Hs; unfold same_calls, with_rcvs; cbn; try (repeat split; reflexivity).
+  exfalso. assert (r0 = x) by congruence. subst r0. rewrite Heqr1 in Hrf. destruct Hrf as [Hc _].
+  apply (Hnw _ Hc _ Heqo0). exact Heqp.
+Qed.
+
+Theorem peer_packet_inert : forall c s id pay s', step c s (LPeerPkt id pay) = Some s' -> same_calls s s'.
+Proof. intros c s id pay s' H. inv_step H. unfold same_calls; cbn. repeat split; reflexivity. Qed.
+
+(* a reply that arrives after its call has returned is dropped at the table lookup *)
+Theorem late_reply_dropped : forall c s r x j k s', reach c s -> nth_error (rcvs s) r = Some x -> r_pc x = RNew ->
+  call_of (r_id x) = Some j -> nth_error (calls s) j = Some k -> k_pc k = Returned ->
+  step c s (LLookup r) = Some s' -> exists x', nth_error (rcvs s') r = Some x' /\ r_pc x' = RDone.
+Proof.
+  intros c s r x j k s' H Hx Hn Hc Hk Hp Hs. destruct (InvA_reach c s H) as [_ _ Hr _].
+  assert (Hm : memb j (resp s) = false).
+  { destruct (memb j (resp s)) eqn:E; [|reflexivity]. unfold memb in E. apply existsb_exists in E. destruct E as [j' [Hin Hj]].
+    apply Nat.eqb_eq in Hj. subst j'. apply Hr in Hin. destruct Hin as [k' [Hk' Hi]]. rewrite Hk in Hk'. inversion Hk'; subst.
+    unfold inside in Hi. rewrite Hp in Hi. discriminate. }
+  cbn [step] in Hs. rewrite Hx, Hn, Hc, Hm in Hs. inversion Hs; subst. unfold with_rcvs; cbn [rcvs].
+  eexists. split; [eapply nth_upd_eq; eauto|reflexivity].
+Qed.
+
+(* a delivery changes exactly the call whose id the packet carries, and only while that call is waiting *)
+Theorem reply_only_to_its_call : forall c s r x s', reach c s -> nth_error (rcvs s) r = Some x -> step c s (LDeliver r) = Some s' ->
+  exists j k, call_of (r_id x) = Some j /\ nth_error (calls s) j = Some k /\ k_pc k = Waiting /\
+              calls s' = upd (calls s) j (set_out k (Reply (r_pay x)) (k_e k)).
+Proof.
+  intros c s r x s' H Hx Hs. pose proof (InvR_reach c s H _ _ Hx) as [_ Hrf]. inv_step Hs.
+  assert (r0 = x) by congruence. subst r0. rewrite Heqr1 in Hrf. destruct Hrf as [Hc _].
+  exists j, c0. cbn [calls]. auto.
+Qed.
+
+(* a receiver that found the channel of a departed caller is released within ReadTimeout *)
+Theorem receiver_released : forall c s r x j, reach c s -> nth_error (rcvs s) r = Some x -> r_pc x = RFound j ->
+  now s <= r_t0 x + readT c.
+Proof. intros c s r x j H Hx Hp. pose proof (InvR_reach c s H _ _ Hx) as [_ Hrf]. rewrite Hp in Hrf. tauto. Qed.
+
+(* ---- the time wheel: rtimer.After(T) never fires earlier than 19/20 of T (needs the accuracy constant of the tree) ---- *)
+Theorem wheel_not_early : forall T, 19 * T <= 20 * lo T.
+Proof.
+  intros T. unfold lo, c_rtimer_accuracy.
+  assert (Hd : T = 20 * (T / 20) + T mod 20) by (apply N.div_mod; discriminate).
+  assert (Hm : T mod 20 < 20) by (apply N.mod_lt; discriminate).
+  remember (T / 20) as q. remember (T mod 20) as m. lia.
+Qed.
+Theorem wheel_not_late : forall T, lo T <= T.
+Proof. intros T. unfold lo. apply N.le_sub_l. Qed.
+
+(* ---- non-vacuity: concrete reachable runs ---- *)
+Example silent_peer_times_out :
+  let '(s, _, ok) := canonical (mkscen (mkcfg 30 40 10 4 100000) CAccept [mkact false None false false] 1 1 20 0 false) in
+  ok = true /\ model_calls s = [(OTimeout, 20)] /\ queueLen s = 0%Z /\ invokeNum s = 0%Z /\ resp s = [].
+Proof. vm_compute. repeat split; reflexivity. Qed.
+
+Example late_then_fast_replies :
+  let '(s, _, ok) := canonical (mkscen (mkcfg 30 40 10 4 100000) CAccept [mkact false (Some 30) false false; mkact false (Some 0) false false] 1 2 20 1 false) in
+  ok = true /\ model_calls s = [(OTimeout, 20); (OReply, 0)] /\ queueLen s = 0%Z /\ invokeNum s = 0%Z /\ resp s = [].
+Proof. vm_compute. repeat split; reflexivity. Qed.
+
+Example stalled_three_callers :
+  let '(s, _, ok) := canonical (mkscen (mkcfg 30 40 10 4 100000) CStall [mkact false None false false] 3 1 10 0 false) in
+  ok = true /\ model_calls s = [(OError, 30); (OError, 60); (OError, 90)].
+Proof. vm_compute. repeat split; reflexivity. Qed.
